@@ -1,4 +1,4 @@
-"""Shape and sibling rules over event skeletons (TWIN, MIRROR, forwarding shapes)."""
+"""Shape and sibling rules over event skeletons (TWIN, forwarding shapes)."""
 import re
 
 from . import mir, skeleton
